@@ -306,6 +306,13 @@ func runK4(r *rng, n int, adversarial bool) {
 					}
 				}
 			}
+			// in histories with panics: now and then the Open / Create of this very request panics (what a
+			// handler has already recorded when its backend call blows up shows on the next use of the fid)
+			if panicPm > 0 && (t == 12 || t == 14) && r.chance(1, 4) {
+				be.mu.Lock()
+				be.panicOn = map[uint8]string{12: "Open", 14: "Create"}[t]
+				be.mu.Unlock()
+			}
 			tag := uint16(r.bits(16))
 			lhs := append([]string{"k4", fmt.Sprintf("conn=%d", c.id), fmt.Sprintf("typ=%d", t), fmt.Sprintf("tag=%d", tag)}, dumpMsg("f:", m)...)
 			rhs := exchange(c, tag, m)
